@@ -37,6 +37,9 @@ Clauses(e) ==
       ActionNeverUnreachable |-> (e.ev = "Req" /\ e.exec /\ e.action /\ e.exist) => e.status # "unreachable",
       \* a component that does not exist (by the simulator's own component tables, whatever routes are registered)
       AbsentNeverSucceeds |-> (e.ev = "Req" /\ e.exec /\ e.gone) => (e.status \in {"unreachable", "failure"} /\ e.post = e.pre),
+      \* the request executed for action number i is the one formed from the entry DECLARED under key i (the mask describes
+      \* that entry)
+      ExecutedIsDeclaredEntry |-> e.ev = "Req" => e.declared,
       MaskExact          |-> (e.ev = "Req" /\ e.mask # "na") => (e.mask = "allow" <=> MaskAllows(e.path) /\ e.leaf),
       MaskedNeverSucceeds |-> (e.ev = "Req" /\ e.exec /\ e.mask = "deny") => e.status # "success"
     ]
